@@ -1837,6 +1837,40 @@ impl Check for C02Check {
             c02_stream(cx, 10, 3, Mode::BytesUtf8, b"\x1b[2;3Hx", true, "witness");
             c02_stream(cx, 10, 3, Mode::Chars, "\u{1b}[2;3Hxé日".as_bytes(), true, "witness");
         }
+        // a pure-text chunk of 16 characters or more (what a bulk path would take) after the cursor
+        // was put in a special place: below / inside / above a scrolling region, near the right
+        // edge, with and without autowrap and insert mode; whole vs cut vs one unit at a time
+        if cx.begin_group("long text chunks from special places") {
+            let mut k = 0u64;
+            for (w, l) in [(8u32, 6u32), (20, 8)] {
+                for bottom in 2..l {
+                    for y in 1..=l {
+                        for x in [1, w / 2, w - 1, w] {
+                            for n in [16usize, 17, 30] {
+                                k += 1;
+                                if !cx.mine(k) {
+                                    continue;
+                                }
+                                let modes = ["", "\x1b[?7l", "\x1b[4h", "\x1b[?6h"][(k % 4) as usize];
+                                let text: String = (0..n).map(|i| (b'a' + (i % 26) as u8) as char).collect();
+                                let stream = format!("\x1b[1;{}r{}\x1b[{};{}H\x1b[31m{}", bottom, modes, y, x, text);
+                                let data = stream.as_bytes();
+                                let at = data.len() - n;
+                                for mode in [Mode::Chars, Mode::BytesUtf8] {
+                                    let whole = run_stream(w, l, mode, &[data.to_vec()]);
+                                    // the text as one chunk of its own, as two, and unit by unit
+                                    c02_pair(cx, w, l, mode, data, &[at], &whole, "long-text");
+                                    c02_pair(cx, w, l, mode, data, &[at, at + n / 2], &whole, "long-text");
+                                    let units: Vec<usize> = (1..data.len()).collect();
+                                    c02_pair(cx, w, l, mode, data, &units, &whole, "long-text");
+                                }
+                            }
+                        }
+                    }
+                }
+            }
+            cx.stats.exhaustive_parts.insert("text chunks of 16 / 17 / 30 characters after every (region bottom, cursor row, 4 cursor columns) on 8x6 and 20x8, with DECAWM off / IRM / DECOM rotated: whole vs own chunk vs two chunks vs unit at a time".into());
+        }
         // a run of single-cell characters that contains a pair which is narrower as a string than
         // character by character (ligating Arabic, Lisu tones, flags ...), ending just before, at
         // and just after the right edge: whole, every 2-way cut, one character at a time
